@@ -141,11 +141,46 @@ def run(env):
                 if "_ct" in c and o != c["_ct"]:
                     env.violation("ciphertext does not survive serialization on %s" % ctx, {"kind": "battery", "case": c, "out": o})
             # homomorphic product on implementation outputs
-            encs = [(c, o) for c, o in zip(c2, o2) if c["op"] == "encrypt_r"]
+            encs = [(c, o) for c, o in zip(c2, o2) if c["op"] == "encrypt_r" and isinstance(o, list)][: (3 if ctx.endswith("2048") else 30)]
+            # second ciphertext under the same key: an encryption of the generator with randomness 3 (and the ciphertext itself)
+            seconds = env.harness([{"ctx": ctx, "op": "encrypt_r", "args": [ca["args"][0], str(g), "3"], "tag": "homomorphic"} for ca, _ in encs])
+            pairs = []
+            for (ca, oa), ob in zip(encs, seconds):
+                pairs.append((ca, oa, ob, str(g)))
+                pairs.append((ca, oa, oa, ca["_e"]))
             c5 = []
-            for (ca, oa), (cb, ob) in zip(encs, encs[1:]):
-                if ca["_sk"] != cb["_sk"]:
-                    continue
+            for ca, oa, ob, eb in pairs:
+                c5.append({"ctx": ctx, "op": "emulp", "args": [oa[0], ob[0]], "tag": "homomorphic"})
+                c5.append({"ctx": ctx, "op": "emulp", "args": [oa[1], ob[1]], "tag": "homomorphic"})
+                c5.append({"ctx": ctx, "op": "emulp", "args": [ca["_e"], eb], "tag": "homomorphic"})
+            o5 = env.harness(c5)
+            c6 = [{"ctx": ctx, "op": "decrypt", "args": [str(pairs[i][0]["_sk"]), [o5[3 * i], o5[3 * i + 1]]], "_want": o5[3 * i + 2], "tag": "homomorphic"} for i in range(len(pairs))]
+            for c, o in zip(c6, env.harness(c6)):
+                items.append((c, ctx, c["op"], c["args"], o))
+                if o != c["_want"]:
+                    env.violation("the component-wise product of two ciphertexts does not decrypt to the product of the plaintexts on %s" % ctx,
+                                  {"kind": "battery", "case": c, "out": o})
+            # keys through their wire format: boundary secrets 0, 1, 2, q-1 and random ones; the decoded private key
+            # re-encodes to the same bytes and carries the right public element, which survives its own round trip
+            sks = [0, 1, 2, q - 1, q - 2] + [r.randrange(q) for _ in range(2 if ctx.endswith("2048") else 6)]
+            c7 = [{"ctx": ctx, "op": "ser_sk", "args": [str(x)], "tag": "key-wire"} for x in sks] + \
+                 [{"ctx": ctx, "op": "ser_pk", "args": [str(pow(g, x, p))], "tag": "key-wire"} for x in sks]
+            o7 = env.harness(c7)
+            c8 = []
+            for c, o in zip(c7, o7):
+                items.append((c, ctx, c["op"], c["args"], o))
+                if not (isinstance(o, str) and o.startswith("x:")):
+                    env.violation("%s failed on %s for secret %s: %s" % (c["op"], ctx, c["args"][0][:20], o), {"kind": "battery", "case": c, "out": o}); continue
+                c8.append({"ctx": ctx, "op": "de_" + c["op"][4:], "args": [o], "_src": c, "tag": "key-wire"})
+            for c, o in zip(c8, env.harness(c8)):
+                items.append((c, ctx, c["op"], c["args"], o))
+                src = c["_src"]
+                if c["op"] == "de_sk":
+                    want = [c["args"][0], str(pow(g, int(src["args"][0]), p))]
+                    if o != want:
+                        env.violation("private key %s does not survive serialization on %s: %s" % (src["args"][0][:20], ctx, str(o)[:80]), {"kind": "battery", "case": [src, c], "out": o})
+                elif o != src["args"][0]:
+                    env.violation("public key does not survive serialization on %s: %s" % (ctx, str(o)[:80]), {"kind": "battery", "case": [src, c], "out": o})
             allbig += items
     fails += env.tie(allbig, "C01-scripted", shard=100)
     # ---------------- ristretto battery (implementation only; the theorem covers it under the group-law hypothesis)
